@@ -80,6 +80,9 @@ def judge(res, ref, k, maxd):
             return 'index %r out of range' % i
         if k is not None and not close(d, ref[i]):
             return 'match %d is reported with distance %r, exhaustive distance %r' % (i, d, ref[i])
+        if k is None and not (close(d, ref[i]) or (d == INF and ref[i] > maxd - 1e-12)):
+            # all comparisons: a candidate beyond max_dist may be reported as inf (early abandoning), never as something else
+            return 'k=None: candidate %d is reported with distance %r, exhaustive distance %r (max_dist %r)' % (i, d, ref[i], maxd)
     got = [d for d, _ in res]
     if any(y < x - 1e-12 for x, y in zip(got, got[1:])):
         return 'distances are not ascending: %r' % (got,)
